@@ -185,6 +185,15 @@ theorem c22_every_api_plan_lowers_as_the_machine (f0 f : Func) (ops : List ApiOp
     lower f = (out, f.added + (nlf - f.nlocals)) :=
   api_plan_lowers_as_machine f0 f ops h0 ha hsp out nlf hs
 
+/-- **…with no side condition**: the machine accepts every well-nested body (`okNest`: every `else` sits in a construct, every `end`
+    closes something, the function body's frame is closed by the last instruction and by no earlier one), whatever the plan and the
+    removal state; hence for every API history on a well-nested function the encoded body *is* the machine's output. -/
+theorem c22_lowering_is_the_machine_on_every_well_nested_body (f0 f : Func) (ops : List ApiOp) (h0 : ∀ x ∈ f0.body, Pristine x)
+    (ha : applyAll f0 ops = some f) (hsp : f.hasSpecial = true) (hn : okNest 1 f.body = true) :
+    ∃ out nlf, specRunF (f.body.length - 1) (entryToks f) f.exit 0 [{}] none f.nlocals f.body = some (out, nlf)
+      ∧ lower f = (out, f.added + (nlf - f.nlocals)) :=
+  lower_is_machine f hsp (fun x hx => applyAll_inScope ops f0 f (fun y hy => (h0 y hy).inScope) ha x hx) hn
+
 /-- **no function-level probe is lost, whatever else the plan contains** -/
 theorem c22_no_function_level_probe_is_lost (f : Func) (hsp : f.hasSpecial = true) (hp : ∀ x ∈ f.body, PlainF x) (out : List Tok)
     (nlf : Nat) (hne : f.body ≠ [])
